@@ -1088,7 +1088,9 @@ class ProductSpaceElement(LinearSpaceElement):
         if array.shape == ():
             return array.item()
 
-        return self.space.element(array)
+        # The result may have another data type than this space (e.g.,
+        # `np.isnan(x)` or `np.sin(x)` for integer `x`), don't cast it back
+        return self.space.astype(array.dtype).element(array)
 
     @property
     def ufuncs(self):
